@@ -49,6 +49,8 @@ class Check:
         self.not_decided = ""
         self.extra = {}
         self._seen = set()
+        self.broken_extra = []
+        self.aborted = False
         try:
             self.seed = int(os.environ.get("VERIF_SEED", "0"))
         except ValueError:
@@ -74,6 +76,13 @@ class Check:
     def note(self, s):
         self.notes.append(s)
 
+    def undecided(self, rid, func, line, construct, why):
+        """The rule cannot judge this construct (shape not recognised, value not evaluable): neither discharged nor a
+        violation.  The run ends as analysis-broken (exit 2) unless a real violation was found elsewhere."""
+        fname = func if isinstance(func, str) else func.name
+        where = "%s:%s" % (func.unit.file if not isinstance(func, str) else func, line)
+        self.broken_extra.append("rule %s cannot judge %s at %s in %s: %s" % (rid, construct, where, fname, why))
+
     # ------------------------------------------------------------------ finish
     def finish(self):
         known = []
@@ -88,7 +97,7 @@ class Check:
         for rid in self.order:
             r = self.rules[rid]
             n = len(r["sites"])
-            if n < r["floor"]:
+            if n < r["floor"] and not self.aborted:
                 broken.append("rule %s matched %d < floor %d sites (anchor moved?)" % (rid, n, r["floor"]))
             for s in r["sites"]:
                 nob += 1
@@ -100,6 +109,7 @@ class Check:
                     matched_known.append((k, s))
                 else:
                     violations.append(s)
+        broken.extend(self.broken_extra)
         wall = time.time() - self.t0
         os.makedirs(os.path.join(OUT, "replay"), exist_ok=True)
         lines = []
